@@ -16,7 +16,10 @@ const (
 	maxElems = 96 // largest operand of the declared bounds (band, ld = 13, 5 rows: 63)
 )
 
-func (p Prec) elemSize() int { return [...]int{4, 8, 8, 16}[p] }
+// I is the pseudo-precision of []int operands (LAPACK pivot and index arrays).
+const I Prec = 4
+
+func (p Prec) elemSize() int { return [...]int{4, 8, 8, 16, 8}[p] }
 
 // region is a block of memory holding one operand: padElems elements, the
 // slice handed to the routine (starting at element off), then the rest.
@@ -31,9 +34,12 @@ type region struct {
 	off   int // element offset of the slice
 }
 
-func newHeapRegion(p Prec) *region {
+func newHeapRegion(p Prec) *region { return newHeapRegionN(p, maxElems) }
+
+// newHeapRegionN returns a region with room for a slice of n elements.
+func newHeapRegionN(p Prec, n int) *region {
 	es := p.elemSize()
-	total := maxElems + 2*padElems
+	total := n + 2*padElems
 	keep := make([]uint64, (total*es+7)/8)
 	r := &region{keep: keep, ptr: unsafe.Pointer(&keep[0]), total: total, p: p, es: es, off: padElems}
 	r.bytes = unsafe.Slice((*byte)(r.ptr), total*es)
@@ -65,9 +71,17 @@ func (r *region) fill(salt int) {
 		for i := range s {
 			s[i] = complex(float64(1+(i+salt)%5), float64((i+salt)%3-1))
 		}
+	case I:
+		s := unsafe.Slice((*int)(r.ptr), r.total)
+		for i := range s {
+			s[i] = 0
+		}
 	}
 	copy(r.snap, r.bytes)
 }
+
+// snapshot records the current contents as the reference for changed.
+func (r *region) snapshot() { copy(r.snap, r.bytes) }
 
 func (r *region) restore() { copy(r.bytes, r.snap) }
 
@@ -84,6 +98,8 @@ func typedSlice(p Prec, ptr unsafe.Pointer, n int) reflect.Value {
 		return reflect.ValueOf(unsafe.Slice((*float64)(ptr), n))
 	case C:
 		return reflect.ValueOf(unsafe.Slice((*complex64)(ptr), n))
+	case I:
+		return reflect.ValueOf(unsafe.Slice((*int)(ptr), n))
 	}
 	return reflect.ValueOf(unsafe.Slice((*complex128)(ptr), n))
 }
@@ -119,13 +135,20 @@ type guardBlock struct {
 	size       int
 }
 
-var guardBlocks [4]*guardBlock
+var guardBlocks [16]*guardBlock
 
-func getGuard(i int) *guardBlock {
-	if guardBlocks[i] != nil {
-		return guardBlocks[i]
+func getGuard(i int) *guardBlock { return getGuardN(i, 4096) }
+
+// getGuardN returns the i-th block, (re)mapped so that it holds at least n bytes.
+func getGuardN(i, n int) *guardBlock {
+	if b := guardBlocks[i]; b != nil {
+		if b.size >= n {
+			return b
+		}
+		b.g.Free()
+		guardBlocks[i] = nil
 	}
-	g := vlib.NewGuarded(4096)
+	g := vlib.NewGuarded(n)
 	s := g.StartF64(1)
 	e := g.EndF64(1)
 	b := &guardBlock{g: g, start: unsafe.Pointer(&s[0])}
@@ -135,15 +158,19 @@ func getGuard(i int) *guardBlock {
 	return b
 }
 
-// guardedSlice returns a []T of n elements that ends exactly at the trailing
-// PROT_NONE page (atEnd) or starts right after the leading one, filled with
+// place returns the address of a slice of n elements of precision p that ends
+// exactly at the trailing PROT_NONE page (atEnd) or starts right after the leading one.
+func (b *guardBlock) place(p Prec, n int, atEnd bool) unsafe.Pointer {
+	if atEnd && n > 0 {
+		return unsafe.Add(b.start, b.size-n*p.elemSize())
+	}
+	return b.start
+}
+
+// guardedSlice returns a []T of n elements at place(p, n, atEnd), filled with
 // finite values.
 func (b *guardBlock) guardedSlice(p Prec, n int, atEnd bool, salt int) reflect.Value {
-	es := p.elemSize()
-	ptr := b.start
-	if atEnd {
-		ptr = unsafe.Add(b.start, b.size-n*es)
-	}
+	ptr := b.place(p, n, atEnd)
 	if n == 0 {
 		// an empty slice: the pointer is never dereferenced by a correct routine;
 		// keep it inside the mapped block.
